@@ -503,3 +503,17 @@ impl PcapPacket {
         }
     }
 }
+
+// Verification hook (off unless built with `--cfg p2sh_verif` or under Kani): a Pcap object around
+// a given global header, without opening a file (the handle is the stdin placeholder and is never
+// read from).
+#[cfg(any(p2sh_verif, kani))]
+impl Pcap {
+    pub fn verif_from_header(header: PcapGlobalHeader) -> Self {
+        Self {
+            file: Rc::new(FileHandle::Stdin),
+            header: RefCell::new(header),
+            ts_format: PcapTsFormat::MicroSeconds,
+        }
+    }
+}
